@@ -12,7 +12,12 @@ run=$(python3 -c "import json,sys; print(json.load(open('$d/meta.json'))['demo_r
 cd "$wt"
 git apply "$d/patch.diff" || { echo "PATCH-DOES-NOT-APPLY"; exit 1; }
 go build ./... || { echo "DOES-NOT-COMPILE"; exit 1; }
-if go test -vet=off -count=1 ./... > "$wt/suite.log" 2>&1; then echo "suite_with_change=pass"; else echo "suite_with_change=FAIL"; tail -5 "$wt/suite.log"; fi
+suite=FAIL
+for try in 1 2 3; do
+  if go test -vet=off -count=1 ./... > "$wt/suite.log" 2>&1; then suite=pass; break; fi
+  grep -E "^(--- FAIL|FAIL|panic)" "$wt/suite.log" | head -5 | sed "s/^/  try $try: /"
+done
+echo "suite_with_change=$suite"
 cp "$d/demo_test.go.txt" "$wt/$place"
 if (eval "$run -count=1") > "$wt/demo1.log" 2>&1; then echo "demo_with_change=pass(UNEXPECTED)"; else echo "demo_with_change=fail(expected)"; fi
 git apply -R "$d/patch.diff"
